@@ -22,6 +22,8 @@ TokFx == ndJsonDeserialize(IOEnv.TOKENS)[1].fx
 
 VARIABLES cfg, val, old, cur, kt, cap, rej, conv, t, loop, pc, idx, new, metro, lstart, imp,
           early, fin, base, lastAcc, accCur, evals, dl, lastKt, stage, hist, ref,
+          moved,   \* size of the last proposal's move in millionths of the configured maximum
+                   \* (measured by the harness on the f64 values: a finer scale than Fx)
           l        \* number of log lines consumed
 
 Undef == -1
@@ -38,7 +40,7 @@ O == INSTANCE Optimiser WITH Fx <- TFx, MoveCap <- TMoveCap, AdaptOK <- TAdaptOK
         Configs <- {}, Values <- {}, Scores <- {}
 
 ovars == O!vars
-tvars == <<ovars, l>>
+tvars == <<ovars, moved, l>>
 
 \* program counter implied by what the implementation did next
 PcBefore(k) ==
@@ -77,7 +79,7 @@ Init ==
   /\ rej = 0 /\ conv = 0 /\ t = 0 /\ loop = 1 /\ pc = "new"
   /\ idx = 1 /\ new = Undef /\ metro = "no" /\ lstart = Undef /\ imp = "na"
   /\ early = FALSE /\ fin = {} /\ accCur = Undef /\ evals = 0 /\ dl = {}
-  /\ lastKt = O!KtOf(e.cfg) /\ stage = 1 /\ hist = <<>> /\ ref = <<>>
+  /\ lastKt = O!KtOf(e.cfg) /\ stage = 1 /\ hist = <<>> /\ ref = <<>> /\ moved = 0
 
 Start(e) ==
   /\ e.ev = "start"
@@ -172,6 +174,7 @@ Panic(e) ==
 Next ==
   /\ l < Len(Log)
   /\ l' = l + 1
+  /\ moved' = IF Log[l + 1].ev = "propose" THEN Log[l + 1].rel ELSE moved
   /\ LET e == Log[l + 1] IN
        Start(e) \/ Begin(e) \/ Propose(e) \/ Eval(e) \/ Draw(e) \/ Decide(e) \/ EndLoop(e)
        \/ Final(e) \/ Observe(e) \/ Panic(e)
@@ -193,6 +196,9 @@ C18 == O!C18
 C18Finish == O!C18Finish
 C19 == O!C19
 C19Cap == O!C19Cap
+\* C19 on a scale relative to the configured maximum (one part in a million), so that an excess
+\* is seen however small max_step_size is
+C19Rel == moved <= 1000001
 C20NoPanic == O!C20NoPanic
 C20Work == O!C20Work
 C20Conv == O!C20Conv
